@@ -17,6 +17,7 @@ ASSUMPTIONS = ["os.replace is atomic on one file system", "python is not run wit
 
 def run(project, rep):
     rep.run(K.k_rules, project, rep)
+    rep.run(K.k_r5_every_call_asks_the_server, project, rep)
     from .. import rules_wire as W
     rep.rule("K-R5", "the date asked with is the date held: DTPROFUP is written by format_datetime as date.mmm[offset] with the milliseconds zero-padded on the left (L-R3)")
     rep.run(W.l_r3_datetime, project, rep)
